@@ -12,16 +12,17 @@ EXPLANATION = (
     "every user action the documented invertibility precondition holds ('invertible-here' obligations) and the group's actions list "
     "records exactly the applied sub-actions in order; (3) the real ActionGroup.inverse returns the inverses in reverse order for "
     "lists of every length (comprehension invariant). Composition (2)+(3) => group inverse restores is lemma M4 (Lean). "
-    "BOUNDED STAND-IN: the relabel walk body against its contract. Segmentation part: see C07 units.")
+    "The relabel walk body is proved against its contract (contracts/walk.py). BOUNDED STAND-IN: its lookup bookkeeping. Segmentation part: see C07 units.")
 ASSUMPTIONS = ["observable state as in the property: nodes, edges, registered feature values, segmentation; max ids / counters / list order excluded",
                "attribute values stored on the graph are never raw ndarrays (the library's writers convert them)",
                "without segmentation the position is a registered node feature present on every node"]
 LEMMAS = ["M4 reverse_inverts (Lean)", "M1b lineage ids equal along descendant paths", "M3 facts of below"]
-NOT_UNDER_CONTRACT = ["TrackAnnotator._handle_update_track_ids body (bounded stand-in)"]
+NOT_UNDER_CONTRACT = ["bookkeeping helpers called at the end of the relabel walk (bounded stand-in)", "UserUpdateSegmentation (bounded stand-in, C07)"]
 
 
 def units(tier):
-    return primitives.invert_units() + groups.units() + useractions.units(UA_ALL, {"lineage_inv": True}) + primitives.units()
+    from contracts import walk
+    return walk.units() + primitives.invert_units() + groups.units() + useractions.units(UA_ALL, {"lineage_inv": True}) + primitives.units()
 
 
 def bounded(tier, seed):
